@@ -97,8 +97,10 @@ package core
 //@   ensures[args] result == nil ==> args_ok(buf.buf, n, old(buf.r)) && buf.r == args_end(buf.buf, n, old(buf.r))
 //@   ensures[taxonomy] (result != nil && result != codec.ErrInvalidResp) ==> (result == codec.EmptyLine || result == codec.ShortLine || result == codec.ErrLFNotFound)
 //@   ensures[frame] resp.Body == old(resp.Body) && resp.Type == old(resp.Type) && resp.Owner == old(resp.Owner)
+//@   ensures[groups] forall s int32 :: has(resp.Frags, s) ==> len(resp.Frags[s]) >= 1
 //@   loop 0
 //@     invariant 0 <= i && i <= n && argsinv(buf, n, i) && resp.Frags != nil
+//@     invariant forall s int32 :: has(resp.Frags, s) ==> len(resp.Frags[s]) >= 1
 //@     invariant resp.Body == old(resp.Body) && resp.Type == old(resp.Type) && resp.Owner == old(resp.Owner)
 //@     decreases n - i
 
@@ -109,8 +111,58 @@ package core
 //@   ensures[args] (result == nil && n % 2 == 0) ==> args_ok(buf.buf, n, old(buf.r)) && buf.r == args_end(buf.buf, n, old(buf.r))
 //@   ensures[taxonomy] (result != nil && result != codec.ErrInvalidResp) ==> (result == codec.EmptyLine || result == codec.ShortLine || result == codec.ErrLFNotFound)
 //@   ensures[frame] resp.Body == old(resp.Body) && resp.Type == old(resp.Type) && resp.Owner == old(resp.Owner)
+//@   ensures[groups] forall s int32 :: has(resp.Frags2, s) ==> len(resp.Frags2[s]) >= 1
 //@   loop 0
+//@     invariant forall s int32 :: has(resp.Frags2, s) ==> len(resp.Frags2[s]) >= 1
 //@     invariant 0 <= i && i % 2 == 0 && (n % 2 == 0 ==> i <= n) && argsinv(buf, n, i) && resp.Frags2 != nil
 //@     invariant args_snoc(buf.buf, i + 1, old(buf.r))
 //@     invariant resp.Body == old(resp.Body) && resp.Type == old(resp.Type) && resp.Owner == old(resp.Owner)
 //@     decreases n - i
+
+//@ func CRespCodec.MGet
+//@   props C06 C12
+//@   requires resp != nil && resp.Body != nil
+//@   requires forall s int32 :: has(resp.Frags, s) ==> len(resp.Frags[s]) >= 1
+//@   ensures[frame] resp.Type == old(resp.Type) && resp.Owner == old(resp.Owner) && resp.Body == old(resp.Body)
+//@   loop 0
+//@     invariant true
+//@   loop 1
+//@     invariant 0 <= rangeindex + 1 && rangeindex + 1 <= len(keys)
+
+//@ func CRespCodec.Del
+//@   props C06 C12
+//@   requires resp != nil && resp.Body != nil
+//@   requires forall s int32 :: has(resp.Frags, s) ==> len(resp.Frags[s]) >= 1
+//@   ensures[frame] resp.Type == old(resp.Type) && resp.Owner == old(resp.Owner) && resp.Body == old(resp.Body)
+//@   loop 0
+//@     invariant true
+//@   loop 1
+//@     invariant 0 <= rangeindex + 1 && rangeindex + 1 <= len(keys)
+
+//@ func CRespCodec.MSet
+//@   props C06 C12
+//@   requires resp != nil && resp.Body != nil
+//@   requires forall s int32 :: has(resp.Frags2, s) ==> len(resp.Frags2[s]) >= 1
+//@   ensures[frame] resp.Type == old(resp.Type) && resp.Owner == old(resp.Owner) && resp.Body == old(resp.Body)
+//@   loop 0
+//@     invariant true
+//@   loop 1
+//@     invariant 0 <= rangeindex + 1 && rangeindex + 1 <= len(keys)
+//@   loop 2
+//@     invariant 0 <= rangeindex#1 + 1 && rangeindex#1 + 1 <= 2
+
+//@ define reqhdr_ok(bs) = len(bs) >= 1 && bidx(bs, '\n') >= 2 && bs[bidx(bs, '\n') - 1] == '\r' && bs[0] == '*'
+//@     && canon(bs[1 : bidx(bs, '\n') - 1]) && dec(bs[1 : bidx(bs, '\n') - 1], bidx(bs, '\n') - 2) >= 1
+//@ define reqargc(bs) = dec(bs[1 : bidx(bs, '\n') - 1], bidx(bs, '\n') - 2)
+//@ define reqargs(bs) = bidx(bs, '\n') + 1
+
+//@ func CRespCodec.Decode
+//@   props C08 C12 C17
+//@   flags allocbound
+//@   requires c != nil && EngineGlobal != nil
+//@   ensures[nonnil@C12] (result1 == nil) == (result0 != nil)
+//@   ensures[taxonomy@C12] (result1 != nil && result1 != codec.ErrInvalidResp) ==> (result1 == errors.ErrIncompletePacket || result1 == codec.EmptyLine || result1 == codec.ShortLine || result1 == codec.ErrLFNotFound)
+//@   ensures[frame@C08] result1 == nil ==> reqhdr_ok(codec.buffer.buf) && args_ok(codec.buffer.buf, reqargc(codec.buffer.buf), reqargs(codec.buffer.buf))
+//@       && codec.buffer.r == args_end(codec.buffer.buf, reqargc(codec.buffer.buf), reqargs(codec.buffer.buf))
+//@   ensures[toolarge@C17] result1 == nil ==> (result0.Type == codec.ReqTooLarge) == (codec.buffer.r > rc.MsgMaxLength)
+//@   ensures[owner] result1 == nil ==> result0.Owner == c && result0.Body != nil
